@@ -42,6 +42,70 @@ def surf_defs(t4):
     return out
 
 
+def straddle_points(t4def, rng):
+    """pairs of points just on either side of the TRIPOLI-4 surface: random sampling alone cannot tell two close
+    parallel planes or two concentric spheres of nearly equal radius apart"""
+    w = t4def.split()
+    try:
+        ps = [float(x) for x in w[1:]]
+    except ValueError:
+        return []
+    kind = w[0]
+    pts = []
+    dl = 2e-3
+    for _ in range(6):
+        u, v = rng.uniform(-3, 3), rng.uniform(-3, 3)
+        if kind in ('PLANEX', 'PLANEY', 'PLANEZ') and len(ps) == 1:
+            ax = 'XYZ'.index(kind[-1])
+            for sg in (-1, 1):
+                q = [u, v]
+                q.insert(ax, ps[0] + sg * dl)
+                pts.append(q)
+        elif kind == 'PLANE' and len(ps) == 4:
+            a, b, c, dd = ps
+            n2 = a * a + b * b + c * c
+            if n2 == 0:
+                return []
+            # a point of the plane a x + b y + c z = d, moved inside the plane, then off it
+            base = [a * dd / n2, b * dd / n2, c * dd / n2]
+            t1 = [b, -a, 0.0] if abs(a) + abs(b) > 0 else [1.0, 0.0, 0.0]
+            t2 = [a * c, b * c, -(a * a + b * b)] if abs(a) + abs(b) > 0 else [0.0, 1.0, 0.0]
+            nn = n2 ** 0.5
+            for sg in (-1, 1):
+                pts.append([base[i] + 0.3 * u * t1[i] + 0.3 * v * t2[i] + sg * dl * (a, b, c)[i] / nn for i in range(3)])
+        elif kind == 'SPHERE' and len(ps) == 4:
+            import math
+            th, ph = rng.uniform(0, math.pi), rng.uniform(0, 2 * math.pi)
+            dirv = [math.sin(th) * math.cos(ph), math.sin(th) * math.sin(ph), math.cos(th)]
+            for sg in (-1, 1):
+                pts.append([ps[i] + (ps[3] + sg * dl) * dirv[i] for i in range(3)])
+        elif kind in ('CYLX', 'CYLY', 'CYLZ') and len(ps) == 3:
+            import math
+            ax = 'XYZ'.index(kind[-1])
+            ang = rng.uniform(0, 2 * math.pi)
+            for sg in (-1, 1):
+                q = [ps[0] + (ps[2] + sg * dl) * math.cos(ang), ps[1] + (ps[2] + sg * dl) * math.sin(ang)]
+                q.insert(ax, u)
+                pts.append(q)
+    return pts
+
+
+def mcnp_straddle(surf, rng, dl=0.01):
+    """pairs of points just either side of an axis plane of the deck (moved with its transformation): two parallel
+    planes are told apart whichever of them lies outside the box of the ordinary sample"""
+    if surf.mn not in ('px', 'py', 'pz') or len(surf.ps) != 1:
+        return []
+    ax = 'xyz'.index(surf.mn[1])
+    pts = []
+    for _ in range(6):
+        u, v = rng.uniform(-3, 3), rng.uniform(-3, 3)
+        for sg in (-1, 1):
+            q = [u, v]
+            q.insert(ax, surf.ps[0] + sg * dl)
+            pts.append(list(surf.tr.to_main(q)) if surf.tr is not None else q)
+    return pts
+
+
 def locus_equal(ctx, surf, t4def, rng):
     """does the TRIPOLI-4 surface `t4def` have the zero set of MCNP surface `surf`? decided by the Lean
     spec on 200 points: the senses agree everywhere or are opposite everywhere"""
@@ -56,7 +120,8 @@ def locus_equal(ctx, surf, t4def, rng):
     d.surfs = [D.Surf(1, mn, ps, tr=surf.tr)]
     d.cells = [D.Cell(1, ('s', -1)), D.Cell(2, ('s', 1))]
     t4 = 'SURF 1 %s\nVOLU 1 EQUA MINUS 1 1 ENDV\nVOLU 2 EQUA PLUS 1 1 ENDV\n' % t4def
-    agree, skip, mm = monitor(ctx, d, t4, G.sample_points(rng, 200), with_comp=False)
+    agree, skip, mm = monitor(ctx, d, t4, G.sample_points(rng, 200) + straddle_points(t4def, rng) + mcnp_straddle(surf, rng),
+                             with_comp=False)
     if agree is None:
         return False
     resp_mismatch = len(mm) > 0
@@ -91,7 +156,8 @@ def moved_case(seed, rng, ctx):
     m = D.Motion(shift, list(D.IDENT))
     if rng.random() < 0.3:
         m, _cls = G.random_motion(rng, 'perm')
-        m = D.Motion([6.0 + rng.choice(G.HALF), 7.0, -6.5], m.b)
+        # off the half-integer grid of the faces: no moved face may coincide with an original one (finding F2a)
+        m = D.Motion([6.3125 + rng.choice(G.HALF), 7.1875, -6.5625], m.b)
     c1 = D.Cell(10, box, mat=1, rho='-1.0')
     c2 = D.Cell(11, box, mat=2, rho='-2.0', trcl=m)
     how = rng.choice(['inline', 'num'])
